@@ -209,6 +209,10 @@ def check(s):
              key="per-step-identity", detail=show(pp.ret, maxlen=100))
     # ---- C04.9 sibling agreement inside the MLP policy
     check_policy_siblings(s, "C04.9")
+    # ---- C04.12 the stored log-probability is the law's own: no distribution class re-implements sample_and_log_prob / log_prob beside the
+    # wrapped law (a "fused" override that forgets the scale Jacobian stores a log-prob evaluate_action does not reproduce)
+    from .C15 import check_thin_wrappers
+    check_thin_wrappers(s, "C04.12")
     # ---- C04.10 lowering of lerax.utils.filter_cond / filter_scan (shared rule: rules/lowering.py)
     from .lowering import check_lowering
     check_lowering(s, "C04.10")
